@@ -756,6 +756,19 @@ namespace
                         try_dealloc_foreign(c);
                     else if (op == "sraw")
                         raw_foreign(c);
+                    else if (op == "hnull" || op == "hset")
+                    {
+                        // hnull: the documented way back to the library's default handlers; hset: the harness' ones
+                        if (op == "hnull")
+                        {
+                            fm::out_of_memory::set_handler(nullptr);
+                            fm::bad_allocation_size::set_handler(nullptr);
+                        }
+                        else
+                            install_handlers();
+                        Ev("hmode").b("def", op == "hnull").b("nonnull", fm::out_of_memory::get_handler() != nullptr
+                                                                             && fm::bad_allocation_size::get_handler() != nullptr);
+                    }
                     else if (op == "fail")
                         world().fail_in = static_cast<long>(c.arg(0));
                     else if (op == "nofail")
